@@ -22,6 +22,9 @@ def inputs_for(tier: str, seed: int):
     for n in (1, 2, 3, 4, 5):
         for g in domains.closed_cfgs(n):
             inputs.append({"dom": "X", "g": [list(s) for s in g]})
+    # very long and very deep graphs, restructured under the interpreter's DEFAULT recursion limit
+    for named in domains.giant_named():
+        inputs.append({"dom": "N", "named": named, "giant": True})
     return inputs
 
 
